@@ -148,6 +148,17 @@ func rawSafe(id string) bool {
 var ttlPool = []string{"2s", "3s", "5s", "1001ms", "2500ms", "6s", "90s", "1m30s", "5m", "1h", "26h"}
 
 func newHistCfg(index int, rng *mrand.Rand, pool map[string][]*poolKey, ca *caSet, nGood int, maxEntries int, prefer func() string) (*histCfg, error) {
+	return newHistCfgShort(index, rng, pool, ca, nGood, maxEntries, prefer, nil)
+}
+
+// remaining lifetimes of the short-lived chains: of the leaf and, for chains of three whose intermediate certificate ends
+// first, of the intermediate certificate
+var shortLifetimes = []struct{ leaf, inter time.Duration }{{2 * time.Minute, 45 * time.Second}, {30 * time.Second, 20 * time.Second}}
+
+// newHistCfgShort: short != nil gives every third good generation an active key whose certificate chain (self signed leaf,
+// leaf + root, leaf + intermediate + root) has a short remaining lifetime - shorter than most of the ttls of the pool, longer
+// than a history takes - next to the long-lived chains and the entries without certificates of the other generations.
+func newHistCfgShort(index int, rng *mrand.Rand, pool map[string][]*poolKey, ca *caSet, nGood int, maxEntries int, prefer func() string, short *mrand.Rand) (*histCfg, error) {
 	c := &histCfg{Index: index}
 	if rng.IntN(3) != 0 {
 		c.SignerName = []string{"me", "https://issuer.example.com/realm", "heimdall-verif", "x"}[rng.IntN(4)]
@@ -226,6 +237,13 @@ func newHistCfg(index int, rng *mrand.Rand, pool map[string][]*poolKey, ca *caSe
 		if i == relabelAt && prevGood != nil {
 			so.Relabel = prevGood.Entries[prevGood.Active]
 		}
+		if short != nil && short.IntN(3) == 0 {
+			lt := shortLifetimes[short.IntN(len(shortLifetimes))]
+			so.ActiveChain, so.ActiveNotAfter = 1+short.IntN(3), time.Now().Add(lt.leaf)
+			if so.ActiveChain == 3 && short.IntN(2) == 0 {
+				so.ActiveInterNotAfter = time.Now().Add(lt.inter)
+			}
+		}
 		g, err := buildStore(len(c.Gens), so, pk, ca, rng)
 		if err != nil {
 			return nil, err
@@ -295,6 +313,9 @@ func (c *histCfg) effectiveClaims(i int) string {
 // accepted, bad ones rejected. A disagreement is a generator problem, not a verdict.
 func (c *histCfg) precheck(dir string) error {
 	for _, g := range c.Gens {
+		if g.expired() {
+			continue // a short-lived chain that has ended meanwhile: the store can no longer be loaded
+		}
 		p := filepath.Join(dir, fmt.Sprintf("precheck-%d.pem", g.Idx))
 		if err := os.WriteFile(p, g.pem, 0o600); err != nil {
 			return err
@@ -319,6 +340,12 @@ func (c *histCfg) lazyPrecheck(res *histResult, dir string) {
 	if err := c.precheck(dir); err != nil {
 		res.Harness = "generator/precheck: " + err.Error()
 	}
+}
+
+// expired: a certificate of the active key's chain has ended or ends within the next two seconds - whether a load that
+// happens now succeeds is a matter of the clock, not of heimdall.
+func (g *genSpec) expired() bool {
+	return !g.validUntil.IsZero() && time.Now().After(g.validUntil.Add(-2*time.Second))
 }
 
 func describeGen(g *genSpec) string {
@@ -389,6 +416,18 @@ type histResult struct {
 	// generations that only re-label the active key of their predecessor (all / with further keys in the store)
 	Relabels     int `json:"generations_relabelling_the_active_key,omitempty"`
 	RelabelsMore int `json:"generations_relabelling_the_active_key_and_adding_keys,omitempty"`
+	// generations whose active key carries a chain with a short remaining lifetime (all / intermediate ending first), tokens
+	// they signed with a ttl reaching beyond / staying within that lifetime
+	ShortGens   int `json:"generations_with_a_short_lived_chain,omitempty"`
+	ShortInter  int `json:"generations_with_an_intermediate_ending_before_the_leaf,omitempty"`
+	BeyondChain int `json:"tokens_with_a_ttl_beyond_the_lifetime_of_the_signing_chain,omitempty"`
+	WithinChain int `json:"tokens_with_a_ttl_within_the_lifetime_of_the_signing_chain,omitempty"`
+	// reloads that put an earlier generation back in place, cached tokens handed out after such a reload
+	Rollbacks     int   `json:"reloads_back_to_an_earlier_generation,omitempty"`
+	AfterRollback int   `json:"cached_context_token_ops_after_a_rollback,omitempty"`
+	ReloadSeq     []int `json:"reload_sequence,omitempty"`
+	// a short-lived chain ended before its store was (re)loaded: slow machine, nothing to judge
+	NotJudged string `json:"not_judged,omitempty"`
 	// a new token and the key set taken after everything else had finished (signer histories)
 	Final *finalView  `json:"final,omitempty"`
 	Storm *stormStats `json:"storm,omitempty"`
@@ -437,6 +476,8 @@ type histRecorder struct {
 	jtis     map[string]int
 	reused   atomic.Int64
 	paired   atomic.Int64
+	beyond   atomic.Int64
+	within   atomic.Int64
 }
 
 func (r *histRecorder) rec(e sEv) { r.mu.Lock(); r.evs = append(r.evs, e); r.mu.Unlock() }
@@ -475,7 +516,7 @@ func runSignerHistory(seed int64, h int, pool map[string][]*poolKey, ca *caSet, 
 	if stress > 0 {
 		nGood = 12
 	}
-	cfg, err := newHistCfg(h, rng, pool, ca, nGood, 3, nil)
+	cfg, err := newHistCfgShort(h, rng, pool, ca, nGood, 3, nil, mrand.New(mrand.NewPCG(uint64(seed), uint64(h)*1000+996)))
 	if err != nil {
 		res.Harness = "generator: " + err.Error()
 		return res
@@ -483,6 +524,14 @@ func runSignerHistory(seed int64, h int, pool map[string][]*poolKey, ca *caSet, 
 	res.Cfg = cfg
 	res.Kinds = cfg.kinds()
 	res.Relabels, res.RelabelsMore = cfg.relabels()
+	for _, g := range cfg.Gens {
+		if !g.validUntil.IsZero() {
+			res.ShortGens++
+			if g.InterNotAfter != "" {
+				res.ShortInter++
+			}
+		}
+	}
 	path := filepath.Join(dir, fmt.Sprintf("ks-%d.pem", h))
 	if err := atomicWrite(path, cfg.Gens[0].pem); err != nil {
 		res.Harness = err.Error()
@@ -491,6 +540,10 @@ func runSignerHistory(seed int64, h int, pool map[string][]*poolKey, ca *caSet, 
 	defer os.Remove(path)
 	cc := newCreationCtx()
 	proto, err := finalizers.CreatePrototype(cc, "jwt-fin", "jwt", cfg.protoConfig(path))
+	if cfg.Gens[0].expired() {
+		res.NotJudged = "the short-lived chain of generation 0 ended before the store was loaded"
+		return res
+	}
 	if err != nil {
 		res.Harness = "prototype: " + err.Error()
 		return res
@@ -508,6 +561,30 @@ func runSignerHistory(seed int64, h int, pool map[string][]*poolKey, ca *caSet, 
 		}
 		fins = append(fins, f)
 	}
+	// the reload sequence: every generation in turn; every other good generation is followed by a reload back to the good
+	// generation before it (a rotation that is rolled back) and, mostly, by the rotation once more
+	var seq []int
+	{
+		sr := mrand.New(mrand.NewPCG(uint64(seed), uint64(h)*1000+997))
+		prev := 0
+		for i := 1; i < len(cfg.Gens); i++ {
+			seq = append(seq, i)
+			if cfg.Gens[i].Bad != "" {
+				continue
+			}
+			if sr.IntN(2) == 0 && len(seq) < 14 {
+				seq = append(seq, prev)
+				res.Rollbacks++
+				if sr.IntN(3) != 0 {
+					seq = append(seq, i)
+				} else {
+					continue // the next rotation starts from the generation rolled back to
+				}
+			}
+			prev = i
+		}
+	}
+	res.ReloadSeq = seq
 	memc, _ := memory.NewCache(nil, nil, nil)
 	_ = memc.Start(context.Background())
 	defer memc.Stop(context.Background())
@@ -528,17 +605,22 @@ func runSignerHistory(seed int64, h int, pool map[string][]*poolKey, ca *caSet, 
 		}
 	}
 	var wg sync.WaitGroup
-	var lastGood atomic.Int64 // last good generation whose reload has returned (0: the initial one)
+	var lastGood atomic.Int64  // last good generation whose reload has returned (0: the initial one)
+	var notJudged atomic.Int64 // 1 + generation whose short-lived chain ended before it was (re)loaded
 
 	// reloader: atomically replaces the file, then delivers the change notification synchronously
 	wg.Add(1)
 	go func() {
 		defer wg.Done()
 		rr := mrand.New(mrand.NewPCG(uint64(seed), uint64(h)*1000+999))
-		n := len(cfg.Gens) - 1
+		n := len(seq)
 		for i := 1; i <= n; i++ {
 			waitFor(totalTok * int64(i) / int64(n+1))
-			g := cfg.Gens[i]
+			g := cfg.Gens[seq[i-1]]
+			if g.expired() {
+				notJudged.Store(int64(g.Idx) + 1)
+				return
+			}
 			tmp := path + ".tmp"
 			if err := os.WriteFile(tmp, g.pem, 0o600); err != nil {
 				rec.problem(problem{Sig: "harness", Text: err.Error()})
@@ -548,6 +630,10 @@ func runSignerHistory(seed int64, h int, pool map[string][]*poolKey, ca *caSet, 
 			_ = os.Rename(tmp, path)
 			cc.w.l[0].OnChanged(zerolog.Nop())
 			ret := now()
+			if g.expired() {
+				notJudged.Store(int64(g.Idx) + 1) // loaded or refused: a matter of the clock
+				return
+			}
 			gen := g.Idx
 			if g.Bad != "" {
 				gen = -1
@@ -630,6 +716,13 @@ func runSignerHistory(seed int64, h int, pool map[string][]*poolKey, ca *caSet, 
 				}
 				if tv.Gen >= 0 {
 					rec.rec(sEv{Client: 1 + c, Kind: kind, Gen: tv.Gen, Call: call, Ret: ret})
+					if end := cfg.Gens[tv.Gen].validUntil; !end.IsZero() {
+						if time.Unix(w1, 0).Add(cfg.Variants[vi].ttl).After(end) {
+							rec.beyond.Add(1)
+						} else {
+							rec.within.Add(1)
+						}
+					}
 				}
 				if tr.IntN(3) == 0 {
 					time.Sleep(time.Duration(tr.IntN(200)) * time.Microsecond)
@@ -671,6 +764,11 @@ func runSignerHistory(seed int64, h int, pool map[string][]*poolKey, ca *caSet, 
 		}(c)
 	}
 	wg.Wait()
+	res.BeyondChain, res.WithinChain = int(rec.beyond.Load()), int(rec.within.Load())
+	if g := notJudged.Load(); g > 0 {
+		res.NotJudged = fmt.Sprintf("the short-lived chain of generation %d ended before the reload to it had returned", g-1)
+		return res
+	}
 	// quiescence: all reloads are done. A new token verifies against the key set fetched after it, both belong to the
 	// last generation that was put in place.
 	if lg := int(lastGood.Load()); lg >= 0 {
@@ -742,7 +840,10 @@ func evaluateHistory(res *histResult, evs []sEv, u *universe, linear bool, done 
 				break
 			}
 		}
-		if e.Kind == "ctok" {
+		if e.Kind == "ctok" && linear {
+			staleCachedToken(res, e, reloads)
+		}
+		if e.Kind == "ctok" && !linear {
 			// a token handed out although a later generation had completely replaced the one it was signed with
 			for _, r := range reloads {
 				t, ok := r.Ret, true
@@ -782,6 +883,91 @@ func evaluateHistory(res *histResult, evs []sEv, u *universe, linear bool, done 
 	default:
 		res.Verdict = "unknown"
 	}
+}
+
+// staleCachedToken judges one token operation with a cache in the context against the reloads of a signer history (one
+// reloader, synchronous reloads, in any order of generations - rotations may be rolled back). The generation in place when
+// the operation started is the one of the last good reload that had returned by then; a reload that overlaps the operation
+// may have put its generation in place as well. A token of any other generation was signed with a key that is not the
+// active one and that the published key set does not contain: it can only come from the cache.
+func staleCachedToken(res *histResult, e sEv, reloads []sEv) {
+	var good []sEv
+	for _, r := range reloads {
+		if r.Gen >= 0 {
+			good = append(good, r)
+		}
+	}
+	sort.Slice(good, func(i, j int) bool { return good[i].Call < good[j].Call })
+	cur, curAt := 0, -1 // generation in place when e started, index of the reload that put it there
+	legit := map[int]bool{}
+	overlapping := 0
+	for i, r := range good {
+		switch {
+		case r.Ret < e.Call:
+			cur, curAt = r.Gen, i
+		case r.Call <= e.Ret:
+			legit[r.Gen] = true
+			overlapping++
+		}
+	}
+	legit[cur] = true
+	rolledBack := false // cur had been in place before, was replaced and put back by reload curAt
+	for i := 0; i < curAt; i++ {
+		if good[i].Gen == cur {
+			rolledBack = true
+		}
+	}
+	if curAt > 0 && cur == 0 {
+		rolledBack = true
+	}
+	if rolledBack {
+		res.AfterRollback++
+	}
+	if legit[e.Gen] {
+		return
+	}
+	res.StaleC++
+	if len(res.Problems) >= 20 {
+		return
+	}
+	// was the token's generation in place between two periods of a generation that may be in place now? Then that
+	// generation was restored by a roll-back and the token was stored under the cache key of the restored generation.
+	timeline := []int{0}
+	var now []int // positions in the timeline which may be in place while e runs
+	for i, r := range good {
+		if r.Call <= e.Ret {
+			timeline = append(timeline, r.Gen)
+			if i >= curAt {
+				now = append(now, len(timeline)-1)
+			}
+		}
+	}
+	if curAt < 0 {
+		now = append(now, 0)
+	}
+	between := false
+	for _, k := range now {
+		seenIt := false
+		for j := 0; j < k; j++ {
+			if timeline[j] == timeline[k] {
+				seenIt = true
+			} else if timeline[j] == e.Gen && seenIt {
+				between = true
+			}
+		}
+	}
+	order := timeline[1:]
+	if between {
+		res.Problems = append(res.Problems, problem{Sig: "cached-token-served-after-rollback",
+			Text: fmt.Sprintf("a token signed by generation %d was handed out from the cache; generation %d was in place when the operation started (good reloads started before the operation returned, the first one from generation 0: %v; "+
+				"those that had not returned when it started: %d): generation %d had been replaced by a generation that was in place before it as well (a rotation that was rolled back)", e.Gen, cur, order, overlapping, e.Gen),
+			Detail: map[string]any{"operation": e, "good_reloads_started_before_the_operation_returned": order}})
+		return
+	}
+	// every generation has its own key: once another generation has completely replaced it, the token no longer verifies
+	// against the published key set (repaired by daebf48: the token cache key covers the key)
+	res.Problems = append(res.Problems, problem{Sig: "cached-token-of-replaced-generation",
+		Text: fmt.Sprintf("a token signed by generation %d was handed out from the cache by an operation that started after generation %d had completely replaced it (reloads that had started before the operation returned: %v)", e.Gen, cur, order)})
 }
 
 // runStaleCacheWitness is a deterministic side observation (NOT a verdict of C16, whose statement is about
